@@ -24,9 +24,9 @@ from bitstring import Dtype, Array
 
 FUNCTIONAL = True
 LEVEL_TEXT = ("Lean theorems over the tables re-extracted from the working tree on every run: each of the nine code->float tables equals the format definition (sign, biased exponent, mantissa, subnormals, single/signed zero, inf, NaN) on every code; each of the nine float16->code tables holds, at every one of its 65 536 indices, the code of the nearest representable value (ties to the even code, out-of-range/inf/NaN/sign-of-zero as documented per format and mxfp_overflow mode) - kernel-checked entry by entry with a neighbour test proved sound for the declarative nearest-value statement on a strictly increasing grid; float_to_int with its OverflowError clamp branch returns that code for every float64 and both modes; decode-then-encode returns every non-NaN code (except e5m2 inf under saturate); e8m0 accepts exactly NaN and the 255 powers of two; mxint and all 65 536 bfloat codes decode exactly; bfloat encoding is the upper half of the IEEE float32 conversion. Correspondence: every code and every half-precision input of every format and mode through the public API, float64 inputs at ties +-1ulp, beyond 65504, subnormal, inf, NaN, -0.0, scaled dtypes.")
-LEVEL_NOTE = ("Trusted: Lean kernel (+propext, Classical.choice, Quot.sound); harness/extract.py reads the live tables; struct.pack('>e'/'>f'), float64 * / + and int() are modelled by their IEEE-754 meaning (exact result then round-to-nearest-even), not verified; the transcription of the Python is tied by the differential run only. mxint2bitstore deviates from nearest-even on exactly two float64 inputs (known finding); for mxint the nearest-even statement is proved on all codes only, for other inputs it rests on the correspondence.")
+LEVEL_NOTE = ("Trusted: Lean kernel (+propext, Classical.choice, Quot.sound); harness/extract.py reads the live tables; struct.pack('>e'/'>f'), float64 * / + -, round() and float(int) are modelled by their IEEE-754 meaning (exact result then round-to-nearest-even), not verified; the transcription of the Python is tied by the differential run only. For mxint the nearest-even statement is proved on all representable values and on the two inputs of the fixed finding; for other float64 inputs it rests on the correspondence (exactness of the float64 product 64*f in the runtime model is not proved).")
 TECHNIQUE = "Lean 4 proof (kernel-checked tables re-extracted each run + soundness of a local nearest-value checker) + exhaustive correspondence"
-NOT_YET_PROVED = ["mxint_rne (mxint2bitstore = nearest-even of 64x with saturation for every float64 outside the two deviating inputs; proved on all 256 representable values, witness of the deviation proved; every half-precision input and float64 ties are covered by the correspondence only)",
+NOT_YET_PROVED = ["mxint_rne (mxint2bitstore = nearest-even of 64x with saturation for every float64; proved on all 256 representable values and on the two inputs of the fixed finding; every half-precision input and float64 ties are covered by the correspondence only)",
                   "bfloat_reencode_fixpoint (bfloat decode-then-encode is the identity on all non-NaN codes: correspondence only - all 65 536 codes in the thorough tier)",
                   "scaled_pow2_exact (power-of-two scales shift the exponent exactly; covered by correspondence only)"]
 RULE = ("cases = corpus + known-finding witness + gen(): every code of every format (block and single lines), a sweep line per format/mode that runs all 65 536 half-precision inputs through the public API (one line = 65 536 evaluations checked by the oracle, one 256-block of it by the model), stratified half-precision inputs, float64 specials one per line with 11 creation routes, re-encode of every code, scaled dtypes; distinct = distinct case lines")
@@ -643,23 +643,6 @@ def nontrivial(line):
     return True
 
 
-# ---------------------------------------------------------------------------------------------------- regions (known findings)
-def _mxint_deviates(line: str) -> bool:
-    f = line.split(SEP)
-    if f[1] == "enc" and f[2] == "mxint":
-        return int(f[4], 16) & ((1 << 63) - 1) == 0x3f80000000000001
-    if f[1] == "senc" and f[2] == "mxint":
-        s = parse_scale(f[4])
-        if s == 0:
-            return False
-        q = div_ref(hex2f(f[5]), scale_float(s))
-        return q == q and struct.unpack(">Q", struct.pack(">d", q))[0] & ((1 << 63) - 1) == 0x3f80000000000001
-    return False
-
-
-REGIONS = {"mxintDeviates": _mxint_deviates}
-
-
 # ---------------------------------------------------------------------------------------------------- generators
 def _ulp_neighbours(x: float):
     """x and its float64 neighbours."""
@@ -729,9 +712,15 @@ def f64_specials(name, rng, n_random):
         out += [hex2f("3f80000000000001"), hex2f("bf80000000000001"), hex2f("3f80000000000002"), hex2f("3f7fffffffffffff")]
     if name == "e8m0mxfp":
         for k in range(-130, 131):
-            for y in _ulp_neighbours(2.0 ** k):
+            x = 2.0 ** k
+            ys = [x]
+            up = dn = x
+            for _ in range(4):                                    # 2^k and its neighbours up to 4 ulp away
+                up, dn = math.nextafter(up, math.inf), math.nextafter(dn, 0.0)
+                ys += [up, dn]
+            for y in ys:
                 out += [y, -y] if k % 16 == 0 else [y]
-        out += [3.0, 0.75, 1.5 * 2.0 ** 100]
+        out += [3.0, 0.75, 1.5 * 2.0 ** 100, 2.0 ** 0.5, 1.0000001, 0.9999999]
     if name in ("bfloat", "bfloatle"):
         for _ in range(n_random):
             c = rng.randrange(0x7f80)                             # finite bfloat code
